@@ -76,13 +76,19 @@ class R:
             return f"StdResult<{r}>" if h["ret_err"] == "std" else f"Result<{r}, {e}>"
         return f"StdResult<Response<{m}>>" if h["ret_err"] == "std" else f"Result<Response<{m}>, {e}>"
 
+    @staticmethod
+    def _cx(h):
+        """Name of the context parameter: `ctx`, unless a message parameter already has that name."""
+        return "cx" if any(a["name"] == "ctx" for a in h.get("args", [])) else "ctx"
+
     def _body(self, h):
         k = h["kind"]
         hid = h["hid"]
+        cx = self._cx(h)
         if k == "query":
-            return f"echo_query(\"{hid}\", ctx.deps, &ctx.env, {self._echo_args(h)})"
-        info = "Some(&ctx.info)" if k in ("instantiate", "exec") else "None"
-        return f"echo_mut(\"{hid}\", ctx.deps, &ctx.env, {info}, None, {self._echo_args(h)})"
+            return f"echo_query(\"{hid}\", {cx}.deps, &{cx}.env, {self._echo_args(h)})"
+        info = f"Some(&{cx}.info)" if k in ("instantiate", "exec") else "None"
+        return f"echo_mut(\"{hid}\", {cx}.deps, &{cx}.env, {info}, None, {self._echo_args(h)})"
 
     def _msg_attr(self, h):
         extra = ""
@@ -132,8 +138,14 @@ class R:
             for l in self._msg_attr(h):
                 items.append("        " + l)
             ctx = f"{CTX_OF[h.get('ctx_kind', h['kind'])]}<{q_t}>"
-            params = ", ".join([h.get("self_text", "&self"), f"{h.get('ctx_attr', '')}ctx: {ctx}"] + self._params(h, in_trait=True))
-            items.append(f"        fn {h['name']}({params}) -> {self._ret(h, m_t, 'Self::Error', in_trait=True)};")
+            params = ", ".join([h.get("self_text", "&self"), f"{h.get('ctx_attr', '')}{self._cx(h)}: {ctx}"] + self._params(h, in_trait=True))
+            if h.get("provided"):
+                # a provided method is a handler like any other; its default body is never used (the contract implements it)
+                dflt = ("Err(StdError::generic_err(\"provided\"))" if h["ret_err"] == "std"
+                        else "Err(Self::Error::from(StdError::generic_err(\"provided\")))")
+                items.append(f"        fn {h['name']}({params}) -> {self._ret(h, m_t, 'Self::Error', in_trait=True)} {{ {dflt} }}")
+            else:
+                items.append(f"        fn {h['name']}({params}) -> {self._ret(h, m_t, 'Self::Error', in_trait=True)};")
         lines += items
         for extra in part.get("extra_items", []):
             lines.append("        " + extra)
@@ -151,7 +163,7 @@ class R:
         mi, qi = (M, Q) if mode != "empty" else ("Empty", "Empty")
         for h in hs:
             ctx = f"{CTX_OF[h.get('ctx_kind', h['kind'])]}<{qi}>"
-            params = ", ".join([f"&self", f"ctx: {ctx}"] + self._params(h, with_attrs=False))
+            params = ", ".join([f"&self", f"{self._cx(h)}: {ctx}"] + self._params(h, with_attrs=False))
             lines.append(f"    fn {h['name']}({params}) -> {self._ret(h, mi, part['error'])} {{")
             lines.append(f"        {self._body(h)}")
             lines.append("    }")
@@ -177,7 +189,9 @@ class R:
         if part.get("as_name"):
             s += f" as {part['as_name']}"
         if extra:
-            s += ": custom(" + ", ".join(extra) + ")"
+            if part.get("custom_flags_reversed"):
+                extra.reverse()
+            s += ": custom(" + ", ".join(extra) + ("," if part.get("custom_flags_trailing_comma") else "") + ")"
         return f"#[sv::messages({s})]"
 
     def contract_src(self, entry_points=True):
@@ -243,19 +257,24 @@ class R:
         elif nm != "none":
             val = f"{self.cid}(std::marker::PhantomData)" if self.gnames else self.cid
             lines.append(f"    pub fn new() -> Self {{ svmon::note_new(); {val} }}")
-        for h in self._ordered(c):
+        between = sorted(p.get("impl_between", []), key=lambda x: x[0])
+        for slot, h in enumerate(self._ordered(c)):
+            while between and between[0][0] <= slot:
+                lines.append("    " + between.pop(0)[1])
             if h["kind"] == "reply":
                 lines += ["    " + l for l in self.reply_handler_src(h)]
                 continue
             for l in self._msg_attr(h):
                 lines.append("    " + l)
             ctx = f"{CTX_OF[h.get('ctx_kind', h['kind'])]}<{Q}>"
-            params = ", ".join([h.get("self_text", "&self"), f"{h.get('ctx_attr', '')}ctx: {ctx}"] + self._params(h))
+            params = ", ".join([h.get("self_text", "&self"), f"{h.get('ctx_attr', '')}{self._cx(h)}: {ctx}"] + self._params(h))
             lines.append(f"    pub fn {h['name']}({params}) -> {self._ret(h, M, p['error'])} {{")
             for bl in h.get("body_prefix", []):
                 lines.append("        " + bl)
             lines.append(f"        {self._body(h)}")
             lines.append("    }")
+        for _, it in between:
+            lines.append("    " + it)
         for extra in c.get("extra_items", []):
             lines.append("    " + extra)
         lines.append("}")
